@@ -90,6 +90,14 @@ F_DIFF = [(0, 1), (0, 10), (0, 11), (0, 16), (2, 8), (24, 2), (0, 12), (1, 0), (
 #   sw Hash: into_affine: identity / z.is_one shortcut / inversion .... identity exprs 15-20, norm flag (Z = 1),
 #        rescaled representatives (lambda != 1)
 #   te Projective ==: is_zero branches, cross-multiplication .......... same classes on jubjub; identity (0,z,0,z)
+#   te Projective::is_zero: x == 0 && y == z && y != 0 && t == 0 ...... every conjunct is decisive on some raw point:
+#        'raw:ord2' (0 : -z : 0 : z) has x = t = 0, y != 0 but y != z; 'raw:ord4' (x : 0 : 0 : z) has t = 0, y = 0;
+#        generic points have x != 0; the identity in representatives (0 : z : 0 : z), z != 1
+#   sw Projective::is_zero (z == 0) / Affine.infinity .................. 'raw:ord2' (y = 0, P == -P, not the identity),
+#        (0, 0) on y^2 = x^3 + x (both coordinates zero, infinity = false), 'raw:x0' (0, +-2) on bls12_381 G1
+#   sw double_in_place on y = 0 (Z3 = 0), add with U1 == U2 && S1 != S2 'raw:ord2' in A+A / double / A+(-A) on the
+#        toy curves a = 0 (y^2 = x^3 + 1) and a != 0 (y^2 = x^3 + x)
+#   normalize_batch: is_zero arm / batch inversion skipping zeros ..... every pair (identity on either side)
 #   PairingOutput::is_zero = is_one of the field ...................... gt_rel with 'one' operands, expr 43
 #   DensePolynomial::is_zero: empty || all zero ....................... 'p_zero', 'cancel' (p - p, (p+q)-q)
 #   Dense add/sub: degree comparison branches, truncate ............... len(p) <,=,> len(q), leading terms cancel
@@ -217,6 +225,213 @@ def gen_big(rng, n):
         yield 'big_sort', [[N]] + [limbs(x, N) for x in v], 'big%d/sort%d' % (N, len(v))
 
 
+
+# ---------------------------------------------------------------- points anywhere on a curve (plain modular arithmetic)
+def sqrt_p(a, p):
+    """square root mod an odd prime (Tonelli-Shanks), None for a non-residue"""
+    a %= p
+    if a == 0:
+        return 0
+    if pow(a, (p - 1) // 2, p) != 1:
+        return None
+    if p % 4 == 3:
+        return pow(a, (p + 1) // 4, p)
+    q, s = p - 1, 0
+    while q % 2 == 0:
+        q //= 2; s += 1
+    z = 2
+    while pow(z, (p - 1) // 2, p) != p - 1:
+        z += 1
+    m, c, t, x = s, pow(z, q, p), pow(a, q, p), pow(a, (q + 1) // 2, p)
+    while t != 1:
+        i, t2 = 0, t
+        while t2 != 1:
+            t2 = t2 * t2 % p; i += 1
+        b = pow(c, 1 << (m - i - 1), p)
+        m, c, t, x = i, b * b % p, t * b * b % p, x * b % p
+    return x
+
+
+class Fld:
+    """F_p (elements [v]) or F_p[u]/(u^2 - nr) (elements [c0, c1]): just enough to walk on a curve"""
+    def __init__(self, params):
+        self.p = params[0]
+        self.d = 1 if len(params) == 1 else 2
+        self.nr = params[1] if self.d == 2 else None
+        self.zero = [0] * self.d
+        self.one = [1] + [0] * (self.d - 1)
+
+    def add(self, a, b): return [(x + y) % self.p for x, y in zip(a, b)]
+    def sub(self, a, b): return [(x - y) % self.p for x, y in zip(a, b)]
+    def neg(self, a): return [(-x) % self.p for x in a]
+    def small(self, n): return [n % self.p] + [0] * (self.d - 1)
+
+    def mul(self, a, b):
+        p = self.p
+        if self.d == 1:
+            return [a[0] * b[0] % p]
+        return [(a[0] * b[0] + self.nr * a[1] * b[1]) % p, (a[0] * b[1] + a[1] * b[0]) % p]
+
+    def inv(self, a):
+        p = self.p
+        if self.d == 1:
+            return [pow(a[0], -1, p)]
+        n = pow((a[0] * a[0] - self.nr * a[1] * a[1]) % p, -1, p)
+        return [a[0] * n % p, (-a[1]) * n % p]
+
+    def sqrt(self, a):
+        p = self.p
+        if self.d == 1:
+            r = sqrt_p(a[0], p)
+            return None if r is None else [r]
+        if a[1] == 0:
+            r = sqrt_p(a[0], p)
+            if r is not None:
+                return [r, 0]
+            r = sqrt_p(a[0] * pow(self.nr, -1, p), p)
+            return None if r is None else [0, r]
+        n = sqrt_p(a[0] * a[0] - self.nr * a[1] * a[1], p)      # norm
+        if n is None:
+            return None
+        for sg in (n, -n):
+            x0 = sqrt_p((a[0] + sg) * pow(2, -1, p), p)
+            if x0:
+                r = [x0, a[1] * pow(2 * x0, -1, p) % p]
+                if self.mul(r, r) == [a[0] % p, a[1] % p]:
+                    return r
+        return None
+
+    def rand(self, rng): return [rng.randrange(self.p) for _ in range(self.d)]
+
+
+def sw_add_aff(K, a, P, Q):
+    """textbook chord-and-tangent law; None = infinity"""
+    if P is None:
+        return Q
+    if Q is None:
+        return P
+    (x1, y1), (x2, y2) = P, Q
+    if x1 == x2:
+        if K.add(y1, y2) == K.zero:
+            return None
+        l = K.mul(K.add(K.mul(K.small(3), K.mul(x1, x1)), a), K.inv(K.add(y1, y1)))
+    else:
+        l = K.mul(K.sub(y2, y1), K.inv(K.sub(x2, x1)))
+    x3 = K.sub(K.sub(K.mul(l, l), x1), x2)
+    return (x3, K.sub(K.mul(l, K.sub(x1, x3)), y1))
+
+
+def te_add_aff(K, a, d, P, Q):
+    """Edwards addition law (complete for the curves used here: a square, d non-square)"""
+    (x1, y1), (x2, y2) = P, Q
+    k = K.mul(d, K.mul(K.mul(x1, x2), K.mul(y1, y2)))
+    x3 = K.mul(K.add(K.mul(x1, y2), K.mul(y1, x2)), K.inv(K.add(K.one, k)))
+    y3 = K.mul(K.sub(K.mul(y1, y2), K.mul(a, K.mul(x1, x2))), K.inv(K.sub(K.one, k)))
+    return (x3, y3)
+
+
+def smul(add, zero, k, P):
+    R = zero
+    while k:
+        if k & 1:
+            R = add(R, P)
+        P = add(P, P)
+        k >>= 1
+    return R
+
+
+def point_order(add, zero, P, bound):
+    Q, n = P, 1
+    while Q != zero:
+        Q = add(Q, P); n += 1
+        if n > bound:
+            return None
+    return n
+
+
+def sw_raw_points(rng, c, r, nrand):
+    """labelled points anywhere on y^2 = x^3 + a x + b (as x ++ y): the whole curve for the toy curves; otherwise
+    points with a zero coordinate when they exist, random points of E(F_q) found by solving for y (outside the
+    prime-order subgroup whenever the cofactor is > 1) and their multiples by r (cofactor torsion)"""
+    K = Fld(c['params'])
+    a, b = c['a'], c['b']
+    add = lambda P, Q: sw_add_aff(K, a, P, Q)
+    rhs = lambda x: K.add(K.add(K.mul(K.mul(x, x), x), K.mul(a, x)), b)
+    out = [('id', None)]
+    if K.p < 100 and K.d == 1:
+        for x in range(K.p):
+            for y in range(K.p):
+                if [y * y % K.p] == rhs([x]):
+                    o = point_order(add, None, ([x], [y]), 4 * K.p)
+                    out.append(('ord%d' % o, [x, y]))
+        return out
+    y = K.sqrt(rhs(K.zero))
+    if y is not None:                                   # (0, +-sqrt b): x = 0
+        out += [('x0', K.zero + y), ('x0', K.zero + K.neg(y))]
+    n = 0
+    while n < nrand:
+        x = K.rand(rng)
+        y = K.sqrt(rhs(x))
+        if y is None:
+            continue
+        n += 1
+        P = (x, y)
+        out.append(('curve', x + y))
+        if c.get('cofactor_gt1'):
+            T = smul(add, None, r, P)                   # killed by the cofactor: small-order / outside the subgroup
+            if T is not None:
+                out.append(('tors', T[0] + T[1]))
+    for _, P in out:                                    # the domain is the curve: never emit an off-curve point
+        assert P is None or K.mul(P[K.d:], P[K.d:]) == rhs(P[:K.d]), P
+    return out
+
+
+def te_raw_points(rng, c, r, nrand, cof=8):
+    """labelled points anywhere on a x^2 + y^2 = 1 + d x^2 y^2 over F_p: the whole curve for the toy curve; otherwise
+    (0, -1) (order 2), (x, 0) (order 4) when a is a square, the points killed by the cofactor (multiples of r Q,
+    searched until one has order 8 = the full cofactor of Jubjub) and random points of the whole curve"""
+    K = Fld(c['params'])
+    p, a, d = K.p, c['a'], c['d']
+    zero = ([0], [1])
+    add = lambda P, Q: te_add_aff(K, a, d, P, Q)
+    out = [('id', None), ('ord1', [0, 1]), ('ord2', [0, p - 1])]
+    if p < 100:
+        out = [('id', None)]
+        for x in range(p):
+            for y in range(p):
+                if (a[0] * x * x + y * y - 1 - d[0] * x * x * y * y) % p == 0:
+                    out.append(('ord%d' % point_order(add, zero, ([x], [y]), 4 * p), [x, y]))
+        return out
+    x4 = sqrt_p(pow(a[0], -1, p), p)
+    if x4 is not None:
+        out += [('ord4', [x4, 0]), ('ord4', [p - x4, 0])]
+    best, n = None, 0
+    while n < nrand or ((best is None or best[0] < cof) and n < 64):
+        y = rng.randrange(p)
+        den = (a[0] - d[0] * y * y) % p
+        if den == 0:
+            continue
+        x = sqrt_p((1 - y * y) * pow(den, -1, p), p)
+        if x is None:
+            continue
+        n += 1
+        Q = ([x], [y])
+        if n <= nrand:
+            out.append(('curve', [x, y]))
+        T = smul(add, zero, r, Q)
+        o = point_order(add, zero, T, 64)
+        if o and (best is None or o > best[0]):
+            best = (o, T)
+    if best and best[0] > 2:
+        o, T = best
+        for k in range(1, o):                           # the whole cofactor-torsion subgroup generated by T
+            Tk = smul(add, zero, k, T)
+            ok = point_order(add, zero, Tk, 64)
+            out.append(('ord%d' % ok, Tk[0] + Tk[1]))
+    for _, P in out:                                    # the domain is the curve: never emit an off-curve point
+        assert P is None or (a[0] * P[0] * P[0] + P[1] * P[1] - 1 - d[0] * P[0] * P[0] * P[1] * P[1]) % p == 0, P
+    return out
+
 # ---------------------------------------------------------------- curve points
 P_EQUAL = [(2, 3), (2, 4), (2, 5), (4, 5), (9, 10), (11, 12), (13, 14), (0, 18), (21, 22), (0, 0), (6, 8), (6, 6),
            (8, 8)]
@@ -237,10 +452,23 @@ def nz_coords(rng, p, d):
             return v
 
 
-def gen_curve(rng, op, c, r, n, tiny=False, fixed=None):
+MUL_EXPRS = {6, 7, 8, 9, 10, 18, 21, 22}
+P_AB = [(0, 1), (2, 11), (2, 12), (4, 11)]            # equal when A = B
+P_ANEGB = [(2, 16), (4, 15), (1, 13), (3, 17)]        # equal when A = -B
+
+
+def gen_curve(rng, op, c, r, n, tiny=False, fixed=None, raw=None, fixed_raw=None, nomul=False):
+    """A = TA + s1 G, B = TB + s2 G.  TA, TB are raw affine points anywhere on the curve (`raw`: labelled pool,
+    `fixed_raw`: list of ordered pairs to enumerate; None = identity); without them A, B are multiples of the
+    subgroup generator.  `nomul`: no scalar-multiplication expressions (bls12_381 G1 overrides mul_projective with
+    GLV, which computes k P only for P in the prime-order subgroup -- outside C19's domain)."""
     fld = c['params']
     p, d = fld[0], DEG[c['kind']]
-    H = [[c['cfg'], c['kind'], c['N']], fld, c['a'], c['b'] if op == 'sw_rel' else c['d'], c['G']]
+    sw = op == 'sw_rel'
+    H = [[c['cfg'], c['kind'], c['N'], c.get('var', 0)], fld, c['a'], c['b'] if sw else c['d'], c['G']]
+    ok_e = lambda e: not (nomul and (set(e) & MUL_EXPRS))
+    neg = lambda P: None if P is None else \
+        (P[:d] + [(-v) % p for v in P[d:]] if sw else [(-v) % p for v in P[:d]] + P[d:])
     for _ in range(n):
         if r < 100:
             big = lambda: rng.randrange(0, r + 2)
@@ -251,16 +479,28 @@ def gen_curve(rng, op, c, r, n, tiny=False, fixed=None):
         s1, s2 = big(), big()
         if fixed is not None:
             s1, s2 = fixed[_ % len(fixed)]
+        la, TA, lb, TB = '', None, '', None
+        if raw is not None:
+            (la, TA), (lb, TB) = rng.choice(raw), rng.choice(raw)
+            # half of the time the raw point itself (s = 0), otherwise torsion / outside point + subgroup point
+            s1 = rng.choice([0, 0, 0, 1, s1, s1])
+            s2 = rng.choice([0, 0, 0, 1, s2, s2])
+        if fixed_raw is not None:
+            (la, TA), (lb, TB) = fixed_raw[_ % len(fixed_raw)]
+            s1 = s2 = 0
         k, l = big(), big()
         w = rng.choice([2, 3, 4, 5])
-        t = rng.randrange(12)
         lamL, lamR = nz_coords(rng, p, d), nz_coords(rng, p, d)
         nL, nR = int(rng.randrange(4) == 0), int(rng.randrange(4) == 0)
-        raw = [rng.randrange(p) if rng.randrange(4) else rng.choice([0, 1]) for _ in range(2 * d)]
-        if op == 'te_rel':
-            raw = nz_coords(rng, p, d)
+        raw_xy = [rng.randrange(p) if rng.randrange(4) else rng.choice([0, 1]) for _ in range(2 * d)]
+        if not sw:
+            raw_xy = nz_coords(rng, p, d)
+        while True:
+            t = rng.randrange(12)
+            if not (nomul and t in (3, 4, 11)):
+                break
         if t < 3:
-            e = rng.choice(P_EQUAL); cls = 'same_point'
+            e = rng.choice([x for x in P_EQUAL if ok_e(x)]); cls = 'same_point'
         elif t == 3:
             e = rng.choice(P_EQUAL_SMALLK); k = rng.choice([0, 1, 2, 3, rng.randrange(40)]); cls = 'mul_paths_small'
         elif t == 4:
@@ -275,25 +515,37 @@ def gen_curve(rng, op, c, r, n, tiny=False, fixed=None):
         elif t == 7:
             e = (0, 13); cls = 'sign'
         elif t == 8:
-            e = rng.choice(P_DIFF); cls = 'distinct'
+            e = rng.choice([x for x in P_DIFF if ok_e(x)]); cls = 'distinct'
         elif t == 9:
-            s2 = s1; e = rng.choice([(0, 1), (2, 11), (2, 12), (4, 11)]); cls = 'A_eq_B'
-            if fixed is not None and fixed[_ % len(fixed)][0] != fixed[_ % len(fixed)][1]:
-                s1, s2 = fixed[_ % len(fixed)]; cls = 'pair'
+            e = rng.choice(P_AB); cls = 'pair'
+            if fixed is None and fixed_raw is None:
+                s2, TB, lb = s1, TA, la; cls = 'A_eq_B'
+            elif fixed is not None and fixed[_ % len(fixed)][0] == fixed[_ % len(fixed)][1]:
+                cls = 'A_eq_B'
         elif t == 10 and not tiny:
-            s2 = (r - s1) % r if s1 < r else 1; e = rng.choice([(2, 16), (4, 15), (1, 13), (3, 17)]); cls = 'A_eq_negB'
-            if fixed is not None and (fixed[_ % len(fixed)][0] + fixed[_ % len(fixed)][1]) % r:
-                s1, s2 = fixed[_ % len(fixed)]; cls = 'pair'
+            e = rng.choice(P_ANEGB); cls = 'pair'
+            if fixed is None and fixed_raw is None:
+                s2 = (r - s1) % r if s1 < r else 1
+                TB, lb = neg(TA), la; cls = 'A_eq_negB'
+            elif fixed is not None and (fixed[_ % len(fixed)][0] + fixed[_ % len(fixed)][1]) % r == 0:
+                cls = 'A_eq_negB'
         else:
             l = (r - k) % r if not tiny else l; e = (9, 10); cls = 'k_plus_l_eq_r' if not tiny else 'same_point'
             if l == 0:
                 l = 1
+            if nomul:
+                e = (2, 3)
         if 7 in e:
             k = k % 41
         if (e[0] in (9, 8) or e[1] in (9, 8)) and not tiny:
             k, l = k % r, l % r
-        yield op, H + [[s1, s2, k, l, w], raw, lamL, lamR, [e[0], e[1], nL, nR]], \
-            '%s/%s%s' % (c['name'], cls, '/rescaled' if lamL != lamR else '')
+        z2 = [0] * (2 * d)
+        tag = ''
+        if raw is not None or fixed_raw is not None:
+            tag = '/raw:' + '+'.join(sorted({la, lb}))
+        yield op, H + [[s1, s2, k, l, w], raw_xy, lamL, lamR, [e[0], e[1], nL, nR],
+                       [int(TA is not None), int(TB is not None)], TA or z2, TB or z2], \
+            '%s/%s%s%s' % (c['name'], cls, tag, '/rescaled' if lamL != lamR else '')
 
 
 # ---------------------------------------------------------------- polynomials
@@ -386,9 +638,9 @@ def gen(rng, tier):
     for name, f in sorted(FIELDS.items()):
         yield 'fld_params', [head(f), f['params']], 'params'
     for name, c in sorted(SW.items()):
-        yield 'sw_params', [[c['cfg'], c['kind'], c['N']], c['params'], c['a'], c['b'], c['G']], 'params'
+        yield 'sw_params', [[c['cfg'], c['kind'], c['N'], c.get('var', 0)], c['params'], c['a'], c['b'], c['G']], 'params'
     for name, c in sorted(TE.items()):
-        yield 'te_params', [[c['cfg'], c['kind'], c['N']], c['params'], c['a'], c['d'], c['G']], 'params'
+        yield 'te_params', [[c['cfg'], c['kind'], c['N'], c.get('var', 0)], c['params'], c['a'], c['d'], c['G']], 'params'
     # toy fields: every ordered pair
     yield from gen_field_exhaustive(rng, 'f13', F_EQUAL + F_DIFF)
     if tier == 'thorough':
@@ -400,24 +652,47 @@ def gen(rng, tier):
         yield from gen_field(rng, name, per[name] * scale)
         yield from gen_sort(rng, name, max(10, per[name] // 10) * scale)
     yield from gen_big(rng, 1500 * scale)
+    q = tier == 'quick'
     for name, c in sorted(SW.items()):
-        c = dict(c, name=name)
-        if name == 'toy_sw13':
-            # every ordered pair (A, B) of the 19 points (s = 0 is the identity), several expression pairs each
-            pairs = [(i, j) for i in range(19) for j in range(19)]
-            yield from gen_curve(rng, 'sw_rel', c, 19, len(pairs) * (2 if tier == 'quick' else 12), fixed=pairs)
+        c = dict(c, name=name, cofactor_gt1=name in ('bls12_381_g1', 'bls12_381_g2'))
+        if name.startswith('toy_sw13'):
+            rr = {'toy_sw13': 19, 'toy_sw13b': 5, 'toy_sw13c': 3}[name]
+            pts = sw_raw_points(rng, c, rr, 0)
+            if name == 'toy_sw13':
+                # every ordered pair (A, B) of the 19 points (s = 0 is the identity), several expression pairs each
+                pairs = [(i, j) for i in range(19) for j in range(19)]
+                yield from gen_curve(rng, 'sw_rel', c, 19, len(pairs) * (2 if q else 12), fixed=pairs)
+                continue
+            # cofactor 4, full 2-torsion (y = 0): every ordered pair of points of the WHOLE curve (identity
+            # included) by raw coordinates, then torsion point + subgroup point
+            pairs = [(P, Q) for P in pts for Q in pts]
+            yield from gen_curve(rng, 'sw_rel', c, rr, len(pairs) * (2 if q else 12), fixed_raw=pairs)
+            yield from gen_curve(rng, 'sw_rel', c, rr, 150 * scale, raw=pts)
             continue
         r = FIELDS[c['fr']]['params'][0]
         yield from gen_curve(rng, 'sw_rel', c, r, {'bls12_381_g1': 160, 'bls12_381_g2': 100, 'secp256k1': 160}[name] * scale)
         yield from gen_curve(rng, 'sw_rel', c, r, 12 * scale, tiny=True)
+        # points by raw coordinates: x = 0, random points of E(F_q) (outside the subgroup on G1 / G2), r * them
+        pts = sw_raw_points(rng, c, r, 3 if q else 12)
+        yield from gen_curve(rng, 'sw_rel', c, r, {'bls12_381_g1': 90, 'bls12_381_g2': 50, 'secp256k1': 50}[name] * scale,
+                             raw=pts, nomul=(name == 'bls12_381_g1'))
     for name, c in sorted(TE.items()):
         c = dict(c, name=name)
         if name == 'toy_te13':
             pairs = [(i, j) for i in range(5) for j in range(5)]
-            yield from gen_curve(rng, 'te_rel', c, 5, len(pairs) * (12 if tier == 'quick' else 100), fixed=pairs)
+            yield from gen_curve(rng, 'te_rel', c, 5, len(pairs) * (12 if q else 100), fixed=pairs)
+            # the WHOLE curve (20 points, cofactor 4: orders 1, 2, 4, 5, 10, 20), every ordered pair, raw coordinates
+            pts = [x for x in te_raw_points(rng, c, 5, 0) if x[1] is not None]
+            pairs = [(P, Q) for P in pts for Q in pts]
+            yield from gen_curve(rng, 'te_rel', c, 5, len(pairs) * (2 if q else 12), fixed_raw=pairs)
+            yield from gen_curve(rng, 'te_rel', c, 5, 150 * scale, raw=pts)
             continue
         yield from gen_curve(rng, 'te_rel', c, JUBJUB_R, 200 * scale)
         yield from gen_curve(rng, 'te_rel', c, JUBJUB_R, 12 * scale, tiny=True)
+        # (0, -1), (x, 0), the whole 8-torsion, random points of the whole curve; alone and + s G
+        pts = te_raw_points(rng, c, JUBJUB_R, 4 if q else 16)
+        yield from gen_curve(rng, 'te_rel', c, JUBJUB_R, 220 * scale, raw=pts)
+        yield from gen_curve(rng, 'te_rel', c, JUBJUB_R, 20 * scale, tiny=True, raw=pts)
     yield 'gt_params', [head(FIELDS['bls12_381_fq12']), FIELDS['bls12_381_fq12']['params'], PARAMS['gt']['bls12_381']['g']], 'params'
     yield from gen_gt(rng, 150 * scale)
     yield from gen_gt_pair(rng, 48 * (1 if tier == 'quick' else 8))
@@ -451,7 +726,11 @@ RULE = ('pairs of values produced by different operation sequences (commuted / r
         'expressions, three scalar-multiplication paths, rescaled and normalised projective representatives, '
         'identity representatives with arbitrary coordinates, polynomial operator chains) plus unequal neighbours '
         '(one limb / one coordinate / sign), over boundary operand classes; every ordered pair of F_13 (and of '
-        'F_13^2 in the thorough tier); non-trivial = some operand after the configuration arguments is non-zero; '
+        'F_13^2 in the thorough tier); curve points A = T + s G with T ANY point of the curve by raw affine '
+        'coordinates (orders 2, 4, 8 and the whole cofactor torsion on Jubjub, y = 0 / x = 0 points, points outside '
+        'the prime-order subgroup on bls12_381 G1 / G2 and their multiples by r), every ordered pair of points of '
+        'the whole toy curves (TE 20 points cofactor 4; SW 20 and 12 points cofactor 4 with full 2-torsion; SW 19 '
+        'points prime order); non-trivial = some operand after the configuration arguments is non-zero; '
         'distinct = distinct case lines')
 XCHECK = {'quick': 160, 'thorough': 600}
 TRUSTED = ['std::collections::hash_map::DefaultHasher (SipHash-1-3, zero keys) is used only to compare two hashes '
